@@ -360,12 +360,13 @@ Proof.
       pose proof (getattr_unsaved _ _ _ _ _ EG) as Hu.
       assert (unsaved_wf sg) as Hsg by (unfold unsaved_wf; now rewrite Hu).
       destruct g as [[a|w l]|[ds|dl]]; try discriminate; try (inversion E; subst; assumption).
-      destruct (negb on_modify_before_op); [discriminate|].
-      destruct (if w && is_wrapped o then mark_unsaved sg rn else Ok sg) as [s2|k|] eqn:EM; cbn [bind] in E; try discriminate.
-      assert (unsaved_wf s2) as Hs2.
-      { destruct (w && is_wrapped o); [eapply mark_unsaved_wf; eassumption|inversion EM; subst; assumption]. }
-      destruct (py_list_op o l) as [l'|k]; inversion E; subst; [|assumption].
-      unfold unsaved_wf. now rewrite with_config_unsaved. }
+      change on_modify_before_op with false in E. cbv iota in E.
+      destruct (py_list_op o l) as [l'|k]; [|inversion E; subst; assumption].
+      cbv zeta in E.
+      match type of E with bind ?r _ = _ => destruct r as [s3|k|] eqn:EM end; cbn [bind] in E; try discriminate.
+      inversion E; subst.
+      destruct (w && is_wrapped o); [|inversion EM; subst; unfold unsaved_wf; now rewrite with_config_unsaved].
+      eapply mark_unsaved_wf; [exact EM|]. unfold unsaved_wf. now rewrite with_config_unsaved. }
     destruct ex; inversion H; subst; assumption.
   - (* save *)
     destruct (m_save st reject) as [[[s1 wrote] r]|] eqn:E; [|discriminate].
@@ -409,13 +410,14 @@ Proof.
   assert (m_unsaved sx = []) as HX.
   { destruct (suffixb PortLines_sfx name); [|inversion E1; subst; assumption].
     destruct (lookup_type (bs "String")) as [sty|]; [|discriminate].
-    match type of E1 with bind ?r _ = _ => destruct r as [ini|k|] end; cbn [bind] in E1; try discriminate.
     inversion E1. unfold set_config. cbn [m_unsaved]. rewrite HU. reflexivity. }
   destruct (mem_bytes value skip_types); [inversion H; subst; assumption|].
   destruct (lookup_type (plus_to_underscore value)) as [[[pk vk] il]|]; [|discriminate].
   destruct il.
   - match type of H with bind ?r _ = _ => destruct r as [parsed|k|] end; cbn [bind] in H; try discriminate.
-    destruct parsed as [a|l]; [discriminate|]. inversion H. unfold set_config. cbn [m_unsaved]. rewrite HX. reflexivity.
+    destruct parsed as [a|l]; [discriminate|].
+    match type of H with bind ?r _ = _ => destruct r as [l'|k|] end; cbn [bind] in H; try discriminate.
+    inversion H. unfold set_config. cbn [m_unsaved]. rewrite HX. reflexivity.
   - match type of H with bind ?r _ = _ => destruct r as [parsed|k|] end; cbn [bind] in H; try discriminate.
     inversion H. unfold set_config. cbn [m_unsaved]. rewrite HX. reflexivity.
 Qed.
@@ -453,12 +455,12 @@ Definition w_input (ops : list op) : cfg_input :=
 
 (* F1: pop the only element, save *)
 Definition w_f1 := w_input [OpListOp (bs "Log") (LPop None); OpSave None; OpRead (bs "Log")].
-(* F2: remove a missing element, save *)
+(* former F2: remove a missing element, save *)
 Definition w_f2 := w_input [OpListOp (bs "ExitNodes") (LRemove (AStr (bs "zz"))); OpNeedsSave; OpSave None].
 (* F3: assign, then edit in place, save *)
 Definition w_f3 := w_input [OpAssign (bs "ExitNodes") (PList [AStr (bs "x")]);
                             OpListOp (bs "exitnodes") (LAppend (AStr (bs "y"))); OpSave None; OpRead (bs "ExitNodes")].
-(* a history outside the three classes that exercises every clause *)
+(* a history outside the open classes that exercises every clause *)
 Definition w_ok := w_input [OpAssign (bs "numcpus") (PAtom (AStr (bs "007")));
                             OpListOp (bs "Log") (LAppend (AStr (bs "info file /tmp/x")));
                             OpNeedsSave; OpSave (Some 552); OpNeedsSave; OpRead (bs "Log");
@@ -472,9 +474,14 @@ Definition refutes (i : cfg_input) : Prop :=
 Lemma f1_refuted : refutes w_f1 /\ emptied_list_saved w_f1 = true.
 Proof. split; [split; [vm_compute; reflexivity|]|vm_compute; reflexivity].
        eexists _, _. split; vm_compute; reflexivity. Qed.
-Lemma f2_refuted : refutes w_f2 /\ failed_listop_marks_pending w_f2 = true.
-Proof. split; [split; [vm_compute; reflexivity|]|vm_compute; reflexivity].
-       eexists _, _. split; vm_compute; reflexivity. Qed.
+(* the former finding F2 (repaired in the source): the same witness is accepted, and the failed
+   operation leaves nothing pending and the save writes nothing *)
+Lemma f2_now_accepted :
+  c10_scope w_f2 = true /\ c10_known w_f2 = false /\
+  exists snap tr, model_run w_f2 = Some (true, snap, tr) /\ oracle w_f2 tr = true
+    /\ nth_error (map o_res tr) 1 = Some (XBool false) /\ map o_wrote tr = [[]; []; []].
+Proof. split; [vm_compute; reflexivity|]. split; [vm_compute; reflexivity|].
+       eexists _, _. split; [vm_compute; reflexivity|]. split; [vm_compute; reflexivity|]. split; vm_compute; reflexivity. Qed.
 Lemma f3_refuted : refutes w_f3 /\ edit_while_detached w_f3 = true.
 Proof. split; [split; [vm_compute; reflexivity|]|vm_compute; reflexivity].
        eexists _, _. split; vm_compute; reflexivity. Qed.
